@@ -148,8 +148,11 @@ def run(ctx):
                         ".".join(path), kind, "analysed text" if is_text else "not analysed text"), dict(info, json=raw))
                 want = [nested] if nested else []
                 if paths != want:
+                    # KF11 predicts: a nested clause only when the field's own container is the nested one
+                    chain = [u for u in under if u != "multi-field"]
+                    kf11 = [nested] if (chain and chain[-1] == "nested") else []
                     ctx.fail("nested wrapping %r instead of %r (innermost nested ancestor)" % (paths, want),
-                             dict(info, json=raw))
+                             dict(info, json=raw, explained_by=["KF11"] if paths == kf11 and kf11 != want else []))
     # equivalent spellings of specifications configure identical behaviour
     for i in range(ctx.budget(80, 1500)):
         schema = es.gen_schema(rng)
